@@ -1,6 +1,7 @@
 package core
 
 import (
+	"fmt"
 	"go/token"
 
 	"golang.org/x/tools/go/ssa"
@@ -279,4 +280,90 @@ func guardedByPaths(fn *ssa.Function, alts [][]Atom, sites []ssa.Instruction) bo
 			return true
 		}
 	}
+}
+
+// StoreLeaf is one value a store can write: the stored value itself, or — when it
+// is a merge (x := a; if c { x = b }; f = x) — one incoming value together with the
+// facts of the edge it arrives on.
+type StoreLeaf struct {
+	Store ssa.Instruction
+	Val   ssa.Value
+	Facts []Fact
+}
+
+// StoreLeaves expands the selected stores into their leaves.
+func StoreLeaves(p *Prog, fn *ssa.Function, sel Sel) []StoreLeaf {
+	var out []StoreLeaf
+	for _, in := range sel.F(p, fn) {
+		st, ok := in.(*ssa.Store)
+		if !ok {
+			continue
+		}
+		base := FactsAtInstr(in)
+		var expand func(v ssa.Value, fs []Fact, depth int)
+		expand = func(v ssa.Value, fs []Fact, depth int) {
+			ph, isPhi := v.(*ssa.Phi)
+			if !isPhi || depth > 4 {
+				out = append(out, StoreLeaf{in, v, fs})
+				return
+			}
+			for i, e := range ph.Edges {
+				if i >= len(ph.Block().Preds) {
+					continue
+				}
+				ef := edgeFacts_h2server(ph.Block().Preds[i], ph.Block())
+				expand(e, append(append([]Fact{}, fs...), ef...), depth+1)
+			}
+		}
+		expand(st.Val, base, 0)
+	}
+	return out
+}
+
+// StoredUnder: the selected stores write only the listed values (rendered terms),
+// each under its guard atom ("" for none), and every listed value is written somewhere.
+// A store of a merged value counts once per incoming value, with the facts of that edge,
+// so `if c { f = a } else { f = b }` and `x := b; if c { x = a }; f = x` are the same to it.
+func (c *Ctx) StoredUnder(fnName string, sel Sel, table map[string]string) bool {
+	rule := "stored-under"
+	construct := fnName + ": [" + sel.Name + "] writes only the listed values, each under its guard"
+	fn := c.MustFn(fnName)
+	if fn == nil {
+		return false
+	}
+	leaves := StoreLeaves(c.P, fn, sel)
+	if len(leaves) == 0 {
+		c.Undecided(rule, construct, "no such site in this function")
+		return false
+	}
+	seen := map[string]bool{}
+	for _, l := range leaves {
+		t := Term(l.Val)
+		guard, listed := table[t]
+		if !listed {
+			c.Fail(rule, construct, InstrPos(l.Store), "value `"+t+"` is not one of the listed values")
+			return false
+		}
+		seen[t] = true
+		if guard == "" {
+			continue
+		}
+		a, err := c.P.ParseAtom(guard)
+		if err != nil {
+			c.Undecided(rule, construct, "bad spec "+guard+": "+err.Error())
+			return false
+		}
+		if !holds(l.Facts, a, false) {
+			c.Fail(rule, construct, InstrPos(l.Store), "value `"+t+"` is written without "+a.String()+" being established; facts on that path: {"+factStrings(l.Facts)+"}")
+			return false
+		}
+	}
+	for t := range table {
+		if !seen[t] {
+			c.Fail(rule, construct, fn.Pos(), "value `"+t+"` is never written")
+			return false
+		}
+	}
+	c.OK(rule, construct, fmt.Sprintf("%d value(s) on %d path(s)", len(table), len(leaves)))
+	return true
 }
